@@ -239,6 +239,24 @@ def check_block(case):
             raise Violation('blk/eq-header', 'a block with %d transactions compares equal to %s' % (len(txs), what))
     if not (hdr == blk.get_header()) or hash(hdr) != hash(blk.get_header()) or (hdr != blk.get_header()):
         raise Violation('blk/get_header-eq', 'get_header() does not compare equal to an equal header')
+    # the readings of a block on FRESH objects in a case-chosen order (and once more on the object used above): no reading may
+    # colour a later one - hash() of a block covers all of it, GetHash() only the header
+    perms = list(itertools.permutations(('gethash', 'pyhash', 'ser', 'header', 'eq')))
+    for o, perm in ((blk, perms[0]), (CBlock.deserialize(raw), perms[(len(raw) + len(txs)) % 120]), (CBlock.deserialize(raw), perms[(h['nonce'] + 7 * h['time']) % 120])):
+        for op in perm:
+            if op == 'gethash':
+                ok = o.GetHash() == want
+            elif op == 'pyhash':
+                ok = hash(o) == hash(raw)
+            elif op == 'ser':
+                ok = o.serialize() == raw
+            elif op == 'header':
+                ok = o.get_header().GetHash() == want and o.get_header().serialize() == E80
+            else:
+                ok = (o == CBlock.deserialize(raw)) and not (o != CBlock.deserialize(raw))
+            if not ok:
+                raise Violation('blk/order-%s' % op, 'block with %d transactions: %s is wrong when the readings are taken in the order %s' % (
+                    len(txs), op, ' > '.join(perm)))
     evals = 5
     if txs:
         from ..ref.merkle import merkle_root
